@@ -52,6 +52,7 @@ def check(run):
     thorough = run.tier == "thorough"
     rng = random.Random(run.seed)
     run.model_check("MC_Retained", "MC_Retained.cfg")
+    run.model_check("MC_Trie", "MC_Trie_ret.cfg")
     topics, filters = c01.domain(run, ["a", "b", ""], 3)
     hs = vlib.gen_behaviours(run, "RetainedGen", "Gen_Retained.cfg", GEN % (4 if thorough else 3))
     run.log("TLC generated %d histories; domain %d topics x %d filters" % (len(hs), len(topics), len(filters)))
